@@ -58,6 +58,9 @@ CHECKS = {
  "C05": ("exhaustive enumeration of lexeme sequences against an independent folding/position model",
          "Every concatenation of <=3 spellings from a 48-spelling core alphabet (thorough: 77 spellings, and length 4 over the core) - raw, so neighbours fuse, and pairs/triples also joined by 6 separators (CR, CRLF, LF, multi-byte rune, multi-line comment) - is scanned to EOF; wherever the next rune is '/' both Scan and ScanRegex are explored. Token extents are measured by the verif hook (runes fetched net of pushback), so tiling, progress and termination are decided independently of the positions under test; each token's Pos is compared with the reference position of its first rune.",
          "Trusts the hook's rune accounting and the 30-line folding/position model. Parse-error positions are covered only through the token positions they are built from.", "3/C05"),
+ "C04": ("exhaustive enumeration of lexeme sequences, token edits, byte strings, nesting ladders and adversarial bindings with hook-enforced oracles",
+         "Every concatenation of <=3 lexeme spellings (thorough: 77 spellings, and length 4 over a 48-spelling core) through ParseQuery/ParseStatement/ParseExpr; every single-token edit of every statement of the grammar model within 1 (2) deviations; every byte string of length <=2 and length-3 strings over 41 selected bytes; 17 nesting/length ladders up to n=1024 (4096); every value slot bound to 37 adversarial parameter values. Oracle: no panic, never (nil,nil), no read of an unfilled or overwritten slot of the two 3-slot pushback rings (verif hook at curr()/read()), token reads <= 40*(runes+8) (hook budget), and String()/Walk of any returned result do not panic.",
+         "Random / coverage-guided generation (named in the property's quantifier) is another family and not attempted; linearity is measured in scanner calls, not time.", "3/C04"),
 }
 ALL = ["C%02d" % i for i in range(1, 21)]
 NOT_YET = "check not built yet in this revision of /verif (work in progress; see DESIGN.md section 3 for the planned bounded-exhaustive check)"
